@@ -274,8 +274,11 @@ def _streamorder(ctx, rng, env):
     flw, ds, n, seq, shape = env["flw"], env["ds"], env["n"], env["seq"], env["shape"]
     kind = rng.choice(["default", "strahler", "strahler", "classic", "random"])
     if kind == "default":
+        # strord=None: the method computes the Strahler order itself; the expected order is the harness' own (an object
+        # that has answered queries / been edited before must not fall back on an order of an earlier network)
+        from common import strahler_of
         strord_arg = None
-        strord = ints(flw.stream_order())
+        strord = strahler_of(ds)
     elif kind == "strahler":
         strord = ints(flw.stream_order())
         strord_arg = np.array(strord, dtype=np.uint8).reshape(shape)
